@@ -184,9 +184,9 @@ def main(argv=None):
     # 2. bounded native search for a witness
     if not decided and r.get('bounded') and r['bounded'] not in bounded_done:
       bounded_done.add(r['bounded'])
-      before = len(violations) + len(known_seen)
+      before = len(violations)
       br = run_bounded(r['bounded'], f'{r["target"]}: {r["status"]}')
-      if len(violations) + len(known_seen) > before:
+      if len(violations) > before:      # a witness that is not a listed known finding
         decided = True
       elif br is not None:
         # no native witness
